@@ -28,6 +28,46 @@ PATTERNS = [b'hello', b'^hello', b'world$', b'[0-9]+\\.[0-9]', b'(lorem) (ipsum)
             b'hello world', b'ipsumRe', b'1\\.5 Re', b'x{3,}', b'(a|b)=(a|b)']
 
 
+def after_other_conditions(ck, stats):
+    """a header condition sees every occurrence of its field also when a body, attachment or date condition has looked at the message
+    before it (those conditions read Content-Type, Content-Transfer-Encoding and Date themselves)"""
+    msg = (b'To: a\nContent-Type: text/plain; charset=first\nDate: Mon, 01 Jan 2001 10:00:00 +0000\nContent-Transfer-Encoding: 7bit\n'
+           b'Content-Type: text/plain; charset=second\ncontent-transfer-encoding: 8bit\nDate: Tue, 01 Jan 2002 10:00:00 +0000\n\nhello body\n')
+    multi = (b'To: a\nContent-Type: multipart/mixed; boundary="b"\nContent-Type: multipart/second\n\n--b\nContent-Type: text/plain\n\npart\n--b--\n')
+    cases = [
+        (msg, 'body /zzz-never/ or header "Content-Type" /second/'),
+        (msg, 'body /hello/ and header "Content-Transfer-Encoding" /8bit/'),
+        (msg, '( date > 1 seconds or all ) and header "Date" /2002/'),
+        (msg, 'date header > 1 seconds and header { "X-None" "Date" } /Tue/'),
+        (multi, 'attachment body /zzz-never/ or header "Content-Type" /second/'),
+        (multi, '( attachment header "Content-Type" /plain/ ) and header "content-type" /SECOND/i'),
+        (msg, 'header "Content-Type" /second/'),              # control: the header condition alone
+    ]
+    for two_rules in (False, True):
+        for text, cond in cases:
+            sb = mdrun.Sandbox()
+            src = sb.maildir('src'); dst = sb.maildir('dst'); other = sb.maildir('other')
+            sb.add(src, 'new', text)
+            if two_rules and (' or header' in cond or ' and header' in cond):
+                first, second = cond.rsplit(' or header' if ' or header' in cond else ' and header', 1)
+                # the other condition in an earlier rule that does not fire (negated when it holds), the header condition in the next one
+                neg = '' if ' or header' in cond else '! '
+                rules = '\tmatch %s( %s ) move "%s"\n\tmatch header%s move "%s"\n' % (neg, first.strip('( )') if first.count('(') != first.count(')') else first, other, second, dst)
+            else:
+                rules = '\tmatch %s move "%s"\n' % (cond, dst)
+            conf = sb.write_conf(('maildir "%s" {\n%s}\n' % (src, rules)).encode())
+            rc, out, err = sb.run([], conf=conf)
+            stats['evals'] += 1; stats['binary'] += 1
+            if rc != 0 or len(sb.snapshot(dst)) != 1:
+                stats['viol'] += 1
+                ck.violation('rules %r on a message with repeated Content-Type / Content-Transfer-Encoding / Date fields: the header condition holds for a later '
+                             'occurrence, but the message was not moved (exit %d, %r)' % (rules, rc, err[-200:]),
+                             {'stream': 'after-other-conditions', 'message_hex': hexs(text), 'config': open(conf).read(), 'exit': rc})
+            else:
+                stats['matched'] += 1
+            sb.cleanup()
+
+
 def run(ck):
     model = common.model_exe()
     drv = common.build_driver('msg_drv', 'plain')
@@ -69,6 +109,7 @@ def run(ck):
         if len(samples) < 3 and fields:
             samples.append({'message': repr(text[:200]), 'queries': [repr(q) for q in qs]})
     # ---- stream 2: the binary with header rules, regexec as the platform computes it ---------------
+    after_other_conditions(ck, stats)
     nbin = 10 if ck.tier == 'quick' else 150
     for round_ in range(nbin):
         sb = mdrun.Sandbox()
